@@ -77,8 +77,11 @@ def St.msg (s : St) (m : String) : St := { s with out := s.out.push m }
 def St.diff (s : St) (m : String) : St :=
   if s.diffs < 200 then { s with diffs := s.diffs + 1, out := s.out.push ("DIFF case=" ++ s.caseId ++ " " ++ m) }
   else { s with diffs := s.diffs + 1 }
+/-- in C08 mode only the C08 property itself (`class=defined-bit-contradicted`) is reported; the C03 verdicts on the same
+    stream (result shapes, unsafe netlists, crashes) belong to `checks/c03.py` -/
 def St.propfail (s : St) (m : String) : St :=
-  if s.propfails < 400 then { s with propfails := s.propfails + 1, out := s.out.push ("PROPFAIL case=" ++ s.caseId ++ " " ++ m) }
+  if s.c08 ∧ (m.splitOn "class=defined-bit-contradicted").length < 2 then s
+  else if s.propfails < 400 then { s with propfails := s.propfails + 1, out := s.out.push ("PROPFAIL case=" ++ s.caseId ++ " " ++ m) }
   else { s with propfails := s.propfails + 1 }
 
 def polOf (c : String) : Pol :=
@@ -188,7 +191,7 @@ def feOp (op : String) (a : List Arg) (p : List Nat) : FE BV4 :=
     | _, _, some cop =>
       if t 0 == 's' then
         match cop with
-        | .LT => slt pa pb (v 0) (v 1) | .GT => sgt pa pb (v 0) (v 1) | .LEQ => sleq pa pb (v 0) (v 1) | .GEQ => sgeq pa pb (v 0) (v 1)
+        | .LT => slt (v 0) (v 1) | .GT => sgt (v 0) (v 1) | .LEQ => sleq (v 0) (v 1) | .GEQ => sgeq (v 0) (v 1)
         | c => compare c .bitvec pa pb (v 0) (v 1)
       else compare cop .bitvec pa pb (v 0) (v 1)
     | _, _, _ => .error "?"
@@ -264,7 +267,11 @@ def specOp (op : String) (a : List Arg) (p : List Nat) : Option BV4 :=
       if aop == .MUL ∧ t 0 == 's' then do let (x', y', w) ← Spec.norm pa pb (v 0) (v 1); pure (Spec.smul w x' y')
       else binArith aop pa pb (v 0) (v 1)
     | _, some lop, _ => binLogic lop pa pb (v 0) (v 1)
-    | _, _, some cop => binCmp cop (t 0 == 's' && cop != .EQ && cop != .NEQ) pa pb (v 0) (v 1)
+    | _, _, some cop =>
+      -- SInt order comparisons compare the two's-complement readings of the operands as they are
+      if t 0 == 's' && cop != .EQ && cop != .NEQ then
+        (if (v 0).isEmpty ∨ (v 1).isEmpty then none else some (Spec.scmp cop (v 0) (v 1)))
+      else binCmp cop false pa pb (v 0) (v 1)
     | _, _, _ => none
   | _ =>
   match op with
@@ -321,15 +328,12 @@ def shapeClass (op : String) (a : List Arg) (p : List Nat) : String :=
   match op.splitOn "." with
   | [name, pp] =>
     if t0 == 's' ∧ (name == "lt" ∨ name == "gt" ∨ name == "leq" ∨ name == "geq") then
-      let pa := polOfChar (pp.toList.getD 0 'n'); let pb := polOfChar (pp.toList.getD 1 'n')
-      match Spec.norm pa pb (v 0) (v 1) with
-      | some (x, y, w) =>
-        if (v 0).allDef && (v 1).allDef then
-          let d := x.toInt - y.toInt
-          let d := if name == "gt" ∨ name == "leq" then -d else d
-          if w = 0 then "w0" else if d < -(2:Int)^(w-1) ∨ d ≥ (2:Int)^(w-1) then "signed-difference-overflows" else "difference-fits"
-        else "undef"
-      | none => "illformed"
+      if (v 0).isEmpty ∨ (v 1).isEmpty then "zero-width"
+      else if (v 0).allDef && (v 1).allDef then
+        let w := max (v 0).length (v 1).length
+        let d := (v 0).toInt - (v 1).toInt
+        if d < -(2:Int)^(w-1) ∨ d ≥ (2:Int)^(w-1) then "signed-difference-overflows" else "difference-fits"
+      else "undef"
     else if t0 == 's' ∧ name == "mul" then
       if (v 0).length == (v 1).length then "equal-widths"
       else
